@@ -77,7 +77,7 @@ def _mk(name, variants, files, ops, init, depth, tags, twin=True):
 
 def valid_templates(tier="quick"):
     T = []
-    depth = 3 if tier == "quick" else 4
+    depth = 6 if tier == "quick" else 7
 
     def common_ops(extra=()):
         ops = [{"op": "edit", "path": "in", "label": "edit in"}, {"op": "edit", "path": "s", "label": "edit s"},
